@@ -310,6 +310,26 @@ def dot_offset(dtype, cell):
     return start + (i if i >= 0 else len(tok))
 
 
+def _dot(m, g):
+    tok = m.group(g)
+    i = tok.find('.')
+    return m.start(g) + (i if i >= 0 else len(tok))
+
+
+def lot_offsets(cell):
+    """For every position shown in the full-width cell, in order of appearance:
+    (units currency, j = how many lots of that currency precede it in the cell,
+     offsets of (units decimal point, units currency symbol), same for the cost or None)."""
+    out, seen = [], {}
+    for m in POS_RE.finditer(cell):
+        cur = m.group(2)
+        j = seen.get(cur, 0)
+        seen[cur] = j + 1
+        cost = (_dot(m, 3), m.start(4)) if m.group(3) is not None else None
+        out.append((cur, j, (_dot(m, 1), m.start(2)), cost))
+    return out
+
+
 # -- reading the text frame --------------------------------------------------------------------------
 
 FILL = '-─'
